@@ -542,25 +542,27 @@ class IntersectionMatcher(AdditiveBiMatcher):
         minquality = minquality
 
         skipped = 0
-        aq = a.block_quality()
-        bq = b.block_quality()
-        while a.is_active() and b.is_active() and aq + bq < minquality:
-            if aq < bq:
-                # If the block quality of A is less than B, skip A ahead until
-                # it can contribute at least the balance of the required min
-                # quality when added to B
-                sk = a.skip_to_quality(minquality - bq)
-                skipped += sk
-                if not sk and a.is_active():
-                    # The matcher couldn't skip ahead for some reason, so just
-                    # advance and try again
-                    a.next()
+        while a.is_active() and b.is_active():
+            aq = a.block_quality()
+            bq = b.block_quality()
+            if aq + bq > minquality:
+                break
+
+            # A block of one sub-matcher can be skipped if its documents
+            # cannot reach the minimum quality even with the best possible
+            # contribution of the other sub-matcher (the other's *current
+            # block* does not cover all documents of the skipped block)
+            a_min = minquality - b.max_quality()
+            b_min = minquality - a.max_quality()
+            if aq <= a_min:
+                sk = a.skip_to_quality(a_min)
+            elif bq <= b_min:
+                sk = b.skip_to_quality(b_min)
             else:
-                # And vice-versa
-                sk = b.skip_to_quality(minquality - aq)
-                skipped += sk
-                if not sk and b.is_active():
-                    b.next()
+                sk = 0
+            if not sk:
+                break
+            skipped += sk
 
             if not a.is_active() or not b.is_active():
                 # One of the matchers is exhausted
@@ -569,10 +571,6 @@ class IntersectionMatcher(AdditiveBiMatcher):
                 # We want to always leave in a state where the matchers are at
                 # the same document, so call _find_next() to sync them
                 self._find_next()
-
-            # Get the block qualities at the new matcher positions
-            aq = a.block_quality()
-            bq = b.block_quality()
         return skipped
 
     def next(self):
